@@ -70,16 +70,7 @@ def check_solution(case):
         strain += flow.strain(ta, tb, 201)
         try:
             if case["bulk"]:
-                F = sut(
-                    pydrex.update_all,
-                    [mineral],
-                    params,
-                    F,
-                    flow.get_velocity_gradient,
-                    (flow.t_of(ta), flow.t_of(tb), flow.get_position),
-                    allowed=hist.SOLVER_ERRORS,
-                    **kw,
-                )
+                F = hist.update_bulk([mineral], params, F, flow, ta, tb, **kw)
             else:
                 F = hist.update(mineral, params, F, flow, ta, tb, **kw)
         except Rejected:
@@ -144,16 +135,7 @@ def check_independence(case):
         F = F0.copy()
         for ta, tb in zip(pts[:-1], pts[1:]):
             if bulk_with is not None:
-                F = sut(
-                    pydrex.update_all,
-                    [m] + bulk_with,
-                    params,
-                    F,
-                    flow.get_velocity_gradient,
-                    (flow.t_of(ta), flow.t_of(tb), flow.get_position),
-                    allowed=hist.SOLVER_ERRORS,
-                    **kw,
-                )
+                F = hist.update_bulk([m] + bulk_with, params, F, flow, ta, tb, **kw)
             else:
                 F = hist.update(m, params, F, flow, ta, tb, **kw)
         return F
